@@ -1291,8 +1291,9 @@ static vbi_bool vbi_proxyd_token_grant( PROXY_CLNT * req )
          req->chn_state.token_state = REQ_TOKEN_GRANTED;
          break;
       case REQ_TOKEN_RELEASE:
-         /* reclaim already sent -> must re-assign token */
-         req->chn_state.token_state = REQ_TOKEN_GRANT;
+         /* reclaim already sent: the client may still hold the token until
+         ** it confirms; the scheduler runs again upon the confirmation */
+         token_free = FALSE;
          break;
       case REQ_TOKEN_GRANTED:
       case REQ_TOKEN_RETURNED:
